@@ -665,9 +665,20 @@ func (e *Engine) VerifyFunc(fn *ssa.Function, c *Contract, prop string) {
 		}
 	}
 	for _, fv := range fn.FreeVars {
+		// a function literal verified on its own: each captured variable is
+		// a cell (never nil) holding an arbitrary value of its type; contracts
+		// name the variable, i.e. the content of the cell
 		v := e.freshVal(st, fv.Name(), fv.Type())
 		fr.vals[fv] = v
 		fr.params[fv.Name()] = v
+		if pt, ok := fv.Type().Underlying().(*types.Pointer); ok {
+			st.assume(not(eq(v.T, "0")))
+			if _, isStruct := pt.Elem().Underlying().(*types.Struct); !isStruct {
+				if _, isArr := pt.Elem().Underlying().(*types.Array); !isArr {
+					fr.params[fv.Name()] = &Val{T: "addr", Addr: e.addrOf(v), Ty: pt.Elem()}
+				}
+			}
+		}
 	}
 	e.assertAxioms(st)
 	e.assumeGlobals(st)
